@@ -5,6 +5,7 @@ import HavocVerif.Driver.C04
 import HavocVerif.Driver.C05
 import HavocVerif.Driver.C08
 import HavocVerif.Driver.C09
+import HavocVerif.Driver.C10
 /-
   Line-protocol driver.  `driver <property> < ops.txt` prints one verdict per
   input line, prefixed with the 1-based line number.  A line `reset` starts a
@@ -28,6 +29,7 @@ def stepperFor (prop : String) : Option Stepper :=
   | "C05" => some ⟨DriverC05.St, {}, DriverC05.step⟩
   | "C08" => some ⟨DriverC08.St, {}, DriverC08.step⟩
   | "C09" => some ⟨Forest, {}, DriverC09.step⟩
+  | "C10" => some ⟨DriverC10.St, {}, DriverC10.step⟩
   | _ => none
 
 partial def loop (h : IO.FS.Stream) (out : IO.FS.Stream) (S : Stepper) (st : S.σ) (n : Nat) : IO Unit := do
